@@ -66,6 +66,19 @@ impl Cryptor {
         })
     }
 //@end
+//@extract src/server/encryption.rs :: impl Cryptor :: fn gen_salt
+    pub fn gen_salt() -> (r: Result<Vec<u8>>)
+        ensures
+            //@ob C13 Cryptor::gen_salt.sixteen-bytes-fresh-from-the-system-random-number-generator
+            r matches Ok(s) ==> s@.len() == 16 && ringspec::rng_drawn(s@),
+    {
+        let rng = rand::SystemRandom::new();
+        let mut salt = [0u8; 16];
+        rng.fill(&mut salt)
+            .map_err(opaque_anyhow)?;
+        Ok(salt.to_vec())
+    }
+//@end
 //@extract src/server/encryption.rs :: impl Cryptor :: fn derive_key | R15
     fn derive_key<P1: AsRef<[u8]>>(salt: P1, secret: &Secret) -> (r: Result<aead::LessSafeKey>)
         ensures
@@ -275,6 +288,19 @@ impl From<Unsealed> for Vec<u8> {
     fn from(val: Unsealed) -> (r: Self)
 {
         val.payload
+    }
+//@end
+}
+/// `impl From<Vec<u8>> for Secret`
+impl vstd::std_specs::convert::FromSpecImpl<Vec<u8>> for Secret {
+    open spec fn obeys_from_spec() -> bool { true }
+    open spec fn from_spec(bytes: Vec<u8>) -> Secret { Secret(bytes) }
+}
+impl From<Vec<u8>> for Secret {
+//@extract src/server/encryption.rs :: impl From<Vec<u8>> for Secret :: fn from
+    fn from(bytes: Vec<u8>) -> (r: Self)
+{
+        Self(bytes)
     }
 //@end
 }
